@@ -54,6 +54,10 @@ def make_rec(log):
             self.spawn = None
 
         def execute(self):
+            if getattr(self, 'escape', False):
+                # e.g. this system stepped a finished sub-model with throw_error=True and lets the error escape
+                self.escape = False
+                raise Core.ModelCompleteError()
             log.append((self.model.systems.timestep, self.key))
             if self.spawn is not None and self.model.systems.timestep == SPAWN_AT \
                     and self.model.systems[self.spawn.id] is None:
@@ -115,6 +119,15 @@ def sweep_case(case):
             s.end = end
     else:
         s = (Rec.Collector if case.get('kind') == 'collector' else Rec)('s', model, 0, start, end, freq)
+    if case.get('kind') == 'rebound':
+        # what runs at timestep t is the system's execute() as it is AT timestep t: the method is replaced on the
+        # instance after registration (a spy / a strategy switched at run time)
+        inner = s.execute
+
+        def spy():
+            log.append((model.systems.timestep, 'spy'))
+            inner()
+        rebind_at = reg
     if case.get('kind') == 'new_manager':
         # the model's scheduler object is replaced by a fresh one before anything is registered (a model installing its
         # own SystemManager): Model.execute / Model.timestep follow the scheduler the model holds now
@@ -124,14 +137,36 @@ def sweep_case(case):
     for t in range(horizon):
         if t == reg:
             model.systems.add_system(s)
+            if case.get('kind') == 'rebound':
+                s.execute = spy
         before = model.timestep
         if before != t or model.systems.timestep != t:
             raise Violation(f'clock is {before}/{model.systems.timestep} after {t} single steps', expected=t,
                             observed=[before, model.systems.timestep])
         n0 = len(log)
-        model.execute()
+        if case.get('kind') == 'escapes' and t == reg:
+            s.escape = True
+        try:
+            model.execute()
+        except Core.ModelCompleteError:
+            # raised by the system itself while the model is running: it reaches the caller, the model keeps running
+            # and the interrupted timestep is still to be done
+            if not (case.get('kind') == 'escapes' and t >= reg and active(t, start, end, freq)):
+                raise Violation(f'execute() at timestep {t} raised ModelCompleteError although the model is running')
+            if not model.is_running() or model.timestep != t or log[n0:]:
+                raise Violation(f'a ModelCompleteError escaping from a system at timestep {t} changed the clock / the status',
+                                expected=[t, True], observed=[model.timestep, model.is_running()])
+            model.execute()
+        else:
+            if getattr(s, 'escape', False) is False and case.get('kind') == 'escapes' and t == reg and \
+                    active(t, start, end, freq):
+                raise Violation(f'a ModelCompleteError raised by a system of a RUNNING model at timestep {t} never reached '
+                                f'the caller of model.execute()', expected='ModelCompleteError', observed='no exception')
+            s.escape = False
         got = log[n0:]
         exp = [(t, 's')] if (t >= reg and active(t, start, end, freq)) else []
+        if exp and case.get('kind') == 'rebound':
+            exp = [(t, 'spy'), (t, 's')]
         if got != exp:
             raise Violation(f'activation at timestep {t} differs from the window predicate',
                             expected=exp, observed=got)
@@ -169,7 +204,7 @@ def sweep_cases(tier):
                         yield {'leg': 'window_sweep', 'start': start, 'end': end, 'freq': freq, 'reg': reg,
                                'horizon': horizon, 'kind': kind}
                     if reg in (0, 3):
-                        for kind in ('assigned', 'new_manager'):
+                        for kind in ('assigned', 'new_manager', 'rebound', 'escapes'):
                             yield {'leg': 'window_sweep', 'start': start, 'end': end, 'freq': freq, 'reg': reg,
                                    'horizon': horizon, 'kind': kind}
                     if reg in (0, 2, 5):
@@ -268,21 +303,27 @@ class Multi:
             before = public_snapshot(w.model)
             n0 = len(w.log)
             want = ValueError if (type(n) is int) else TypeError
-            try:
-                w.model.execute(n)
-            except (TypeError, ValueError) as e:
-                if type(e) is not want:
-                    raise Violation(f'execute({n!r}) raised {type(e).__name__}', expected=want.__name__,
-                                    observed=type(e).__name__)
-                if public_snapshot(w.model) != before or len(w.log) != n0:
-                    raise Violation(f'rejected execute({n!r}) changed the model or ran a system')
-                return
-            raise Violation(f'execute({n!r}) was accepted', expected=want.__name__, observed='no exception')
+            for how, call in (('execute({!r})', lambda: w.model.execute(n)), ('execute(n={!r})', lambda: w.model.execute(n=n))):
+                what = how.format(n)
+                try:
+                    call()
+                except (TypeError, ValueError) as e:
+                    if type(e) is not want:
+                        raise Violation(f'{what} raised {type(e).__name__}', expected=want.__name__,
+                                        observed=type(e).__name__)
+                    if public_snapshot(w.model) != before or len(w.log) != n0:
+                        raise Violation(f'rejected {what} changed the model or ran a system')
+                    continue
+                raise Violation(f'{what} was accepted', expected=want.__name__, observed='no exception')
+            return
         n = op[1] if kind == 'execute' else 1
         exp = self.expected_log(w, n)
         n0 = len(w.log)
         if kind == 'execute':
-            w.model.execute(n)
+            if n % 2:
+                w.model.execute(n=n)      # the count passed by keyword
+            else:
+                w.model.execute(n)
         else:
             w.model.systems.execute_systems()
         got = w.log[n0:]
